@@ -221,7 +221,7 @@ pub fn probes(seed: u64, n: usize) -> Vec<Probe> {
 
 pub fn run(tier: Tier, seed: u64) -> i32 {
     let mut run = Run::new("C16", tier, seed, "exploration");
-    run.rule = "evaluation = one probe (`position X` + `go`) issued after a generated prefix of 1..60 commands in the same session of the real binary (other games with long move lists and repetitions, the probed game itself or truncations of it, zero-slice and timed searches, go chains, ucinewgame, both setoption forms, isready, unknown lines) and compared with a fresh process: zero-allowance probes must give the identical bestmove (also when repeated in the session); timed probes (5-40 ms) must report a sequence of (depth, nodes, score, first PV move) that is prefix-compatible with the fresh engine's 150 ms run. Probes include repetition-sensitive roots (lost side to move behind one or two shuffle cycles) so that a leaked repetition record changes scores. Non-trivial = every probe after a non-empty prefix; distinct by (probe, prefix seed)".into();
+    run.rule = "evaluation = one probe (`position X` + `go`) issued after a generated prefix of 1..60 commands in the same session of the real binary (other games with long move lists and repetitions, the probed game itself or truncations of it, zero-slice and timed searches, go chains, ucinewgame, both setoption forms, isready, unknown lines) and compared with a fresh process: zero-allowance probes must give the identical bestmove (also when repeated in the session); timed probes (5-40 ms) must report a sequence of (depth, nodes, score, first PV move) that is prefix-compatible with the fresh engine's 150 ms run. Pipelined variant: prefix (positions, go chains with plans <= 25 ms, the probed and related games, option line) and the zero-allowance probe (twice) written without waiting for any reply - one write, per line, or pieces that cut lines in two - and compared with the fresh engine's answer. Probes include repetition-sensitive roots (lost side to move behind one or two shuffle cycles) so that a leaked repetition record changes scores. Non-trivial = every probe after a non-empty prefix; distinct by (probe, prefix seed)".into();
     run.assumptions = vec![
         "an info line printed by the detached search thread just after bestmove belongs to the go that started it; the driver drains for 5 ms and uses isready as the boundary before the next command".into(),
         "fresh-engine references are computed once per probe and reused".into(),
@@ -333,6 +333,71 @@ pub fn run(tier: Tier, seed: u64) -> i32 {
     });
     for a in res {
         run.acc.merge(a, &[]);
+    }
+    // the same question with "all timings": prefix traffic and probe are written without waiting
+    // for any reply, so every command arrives while the engine is still busy with an earlier one
+    {
+        use super::pipe::{self, Chunking, End};
+        let n = tier.pick(48usize, 600);
+        let res = run_parallel(16, n, |i| {
+            let mut acc = Acc::new();
+            let mut rng = Rng::stream(seed, 0xC16_9000 + i as u64);
+            let idx = rng.below(prs.len() as u64) as usize;
+            let probe = &prs[idx];
+            let reference = match &refs[idx] {
+                Ok(r) => r,
+                Err(_) => return acc,
+            };
+            let steps = 1 + rng.below(6) as usize;
+            let mut lines = pipe::make_script(&mut rng, &roots, steps, 3, 25);
+            // the probed game itself and related games earlier in the session, option lines
+            if rng.chance(1, 2) {
+                let at = rng.below(lines.len() as u64 + 1) as usize;
+                lines.insert(at, probe.hist.command());
+            }
+            for r in probe.related.iter().take(2) {
+                if rng.chance(1, 2) {
+                    lines.insert(0, "go".into());
+                    lines.insert(0, r.command());
+                }
+            }
+            if rng.chance(1, 3) {
+                lines.insert(0, "setoption name DebugLogLevel value Info".into());
+            }
+            // the probe, twice
+            for _ in 0..2 {
+                lines.push(probe.hist.command());
+                lines.push("go".into());
+            }
+            let chunking = match rng.below(3) { 0 => Chunking::PerLine, 1 => Chunking::Pieces(1 + rng.below(50) as usize), _ => Chunking::OneWrite };
+            let obs = match pipe::run_pipelined(&plain, &SpawnOpts::default(), &lines, End::Eof, chunking, seed ^ i as u64) {
+                Ok(o) => o,
+                Err(e) => {
+                    acc.inconclusive.push(format!("pipelined probe session failed to start: {}", e));
+                    return acc;
+                }
+            };
+            let j = pipe::judge(&lines, &obs);
+            if !obs.complete || j.answers.len() < 2 {
+                acc.inconclusive.push("pipelined prefix traffic was not answered completely (reported by C03/C08 if it is a defect)".into());
+                return acc;
+            }
+            acc.evaluations += 2;
+            acc.distinct.insert(hash64(&format!("pipelined|{}|{}", probe.hist.command(), i)));
+            acc.feature("pipelined_zero_slice_probe");
+            let got = &j.answers[j.answers.len() - 2..];
+            if got[0] != reference.zero_answer || got[1] != reference.zero_answer {
+                acc.violation(
+                    format!("C16|pipelined|{}", probe.hist.command()),
+                    format!("zero-allowance probe '{}' written without waiting after {} earlier commands answered {:?}, a fresh engine answers {}", truncate(&probe.hist.command(), 160), lines.len() - 4, got, reference.zero_answer),
+                    pipe::case_json("C16", &lines, End::Eof, chunking, Some(&obs)),
+                );
+            }
+            acc
+        });
+        for a in res {
+            run.acc.merge(a, &[]);
+        }
     }
     run.set("probes", json!(prs.len()));
     run.floor_distinct = 100;
